@@ -173,6 +173,23 @@ def check(case, ctx):
                 if list(alt.dims) != co or not np.array_equal(np.asarray(alt.transpose(*cb).values), gv):
                     raise Violation(f"simple grid: {name} differs from the vector form with other_component", component=comp[0])
 
+    if not has_links:
+        # the same clause for components on the other staggered positions (closed-domain edges: outer / inner), where the
+        # shift needs no padding at all
+        n2 = N + 1
+        pds = xr.Dataset(coords={"pc": ("pc", np.arange(n2) + 0.5), "po": ("po", np.arange(n2 + 1) * 1.0), "pi": ("pi", np.arange(1, n2) * 1.0),
+                                 "qc": ("qc", np.arange(2) + 0.5), "ql": ("ql", np.arange(2) * 1.0)})
+        pgrid = must_return("Grid construction", Grid, pds, coords={"X": {"center": "pc", "outer": "po", "inner": "pi"}, "Y": {"center": "qc", "left": "ql"}},
+                            autoparse_metadata=False, periodic=False, **kw)
+        pfn = getattr(pgrid, case["op"])
+        for frm, to_ in (("po", "center"), ("pc", "inner"), ("pi", "center"), ("pc", "outer")):
+            comp_ = xr.DataArray(np.arange(float(2 * pds.sizes[frm])).reshape(2, -1) ** 2, dims=["qc", frm], name="uo")
+            part_ = xr.DataArray(np.ones((2, n2)), dims=["ql", "pc"], name="vo")
+            bare_ = must_return("bare component on a simple grid", pfn, comp_, "X", to=to_, **ckw)
+            vecf_ = must_return(f"vector form on a simple grid ({frm} -> {to_})", pfn, {"X": comp_}, "X", to=to_, other_component={"Y": part_}, **ckw)
+            if list(vecf_.dims) != list(bare_.dims) or not np.array_equal(np.asarray(vecf_.values), np.asarray(bare_.values)):
+                raise Violation("simple grid: vector form differs from the component alone", frm=frm, to=to_)
+
     # the two-component convenience wrappers give the same pair of results
     wrapper = grid.diff_2d_vector if case["op"] == "diff" else grid.interp_2d_vector
     vec = {"X": uda, "Y": vda}
